@@ -51,6 +51,7 @@ type Probe struct {
 	// NoPre: do not pre-execute (setup transactions of a sequence are still executed in the block)
 	PreOnly   bool `json:"pre_only,omitempty"`
 	BlockOnly bool `json:"block_only,omitempty"`
+	StackMB   int  `json:"stack_mb,omitempty"` // goroutine stack cap for this probe (default 256)
 }
 
 const (
